@@ -9,6 +9,7 @@ from . import c40
 from .c40 import h
 
 stats = Counter()
+STRICT_SCOPES = False     # True: every hop of a symbol's scope chain must be a node that is still part of the routine's tree
 
 # ====================================================================== registry of built-in transformations
 
@@ -134,8 +135,12 @@ def wf_problems(sf, gf):
             allowed.add(id(p))
             p = p.parent
         assoc_names = set()
+        live = set()           # scoped nodes that are part of the routine's tree now
         for a in FindNodes(ir.Associate).visit(r.body):
             assoc_names |= {str(n.name).lower() for _, n in a.associations}
+            live.add(id(a))
+        for a in FindNodes((ir.TypeDef, ir.Interface)).visit(r.ir):
+            live.add(id(a))
         declared = {str(v.name).lower() for v in r.variables}
         imported = set()
         bare = False
@@ -159,13 +164,27 @@ def wf_problems(sf, gf):
             else:
                 chain_ok = False
                 hops = 0
+                dangling = False
                 while s is not None and hops < 50:
                     if id(s) in allowed:
                         chain_ok = True
                         break
+                    if id(s) not in live and not isinstance(s, (Subroutine, Module)):
+                        dangling = True      # e.g. an Associate node that was removed from the tree
+                        break
                     s = s.parent
                     hops += 1
-                if not chain_ok:
+                if dangling and not STRICT_SCOPES:
+                    # the stale node's own parent chain still reaches the routine: accepted (counted), see notes/C41.md
+                    stats['stale-scope-node'] += 1
+                    s2, hops2 = s, 0
+                    while s2 is not None and hops2 < 50 and id(s2) not in allowed:
+                        s2, hops2 = s2.parent, hops2 + 1
+                    if s2 is None or hops2 >= 50:
+                        probs.append(('scope', f'{r.name}: scope chain of symbol {v} does not reach the routine'))
+                elif dangling:
+                    probs.append(('scope', f'{r.name}: symbol {v} is scoped in a {type(s).__name__} node that is no longer part of the routine'))
+                elif not chain_ok:
                     probs.append(('scope', f'{r.name}: scope chain of symbol {v} does not reach the routine'))
             # declared / imported / host associated / associate name
             name = str(v.name).lower().split('%')[0]
@@ -204,6 +223,9 @@ def classify(tname, src, probs):
             return 'sanitise-imports-module-spec'
     if tname == 'remove_unused_vars(all)' and probs[0][0] in ('undeclared', 'gfortran') and re.search(r'^\s*do\s+\w+\s*=', low, re.M):
         return 'remove-unused-vars-loop-variable'
+    if tname.startswith('resolve_vector_notation') and probs[0][0] in ('reparse', 'gfortran') and \
+            re.search(r'[(,]\s*:\s*[^,):\s]|[^,(:\s]\s*:\s*[,)]', low):
+        return 'vector-notation-half-open-range'
     return None
 
 
@@ -348,7 +370,7 @@ class C41(Prop):
     extra_obligations = ['oracle: scope chains, declared-or-imported, re-parse and gfortran syntax check after every registered transformation']
 
     def classes(self):
-        return ['sanitise-imports-drops-bare-use', 'sanitise-imports-module-spec', 'remove-unused-vars-loop-variable']
+        return ['sanitise-imports-drops-bare-use', 'sanitise-imports-module-spec', 'remove-unused-vars-loop-variable', 'vector-notation-half-open-range']
 
     def gen(self, rng, tier):
         rounds = {'quick': 1, 'thorough': 12, 'search': 3}.get(tier, 1)
@@ -363,7 +385,8 @@ class C41(Prop):
             for norm in ('lower', 'deadns'):
                 prog = fir.gen_program(rng, GEN_CFG)
                 prog = c40.recase_prog(prog, rng) if norm == 'lower' else c40.literal_selects(c40.dead_decorate(prog, rng), rng)
-                yield Case([A('wf'), A(norm), prog], stream='wf-' + norm)
+                if c40.frontend_accepts(prog):
+                    yield Case([A('wf'), A(norm), prog], stream='wf-' + norm)
             for _ in range(3):
                 req, nt = c40.gen_imp_req(rng)
                 yield Case([A('bare'), req[1], req[2]], stream='bare', nontrivial=nt)
@@ -399,8 +422,12 @@ class C41(Prop):
             tname, src = 'sanitise_imports', c40.imp_source(a, b, [])
         else:
             tname, src = a, b
-        sf = c40.parse_enriched(src)
-        t0 = fgen(sf.ir)
+        try:
+            sf = c40.parse_enriched(src)
+            t0 = fgen(sf.ir)
+        except Exception as e:
+            stats[f'input-rejected-by-frontend:{type(e).__name__}'] += 1
+            return []
         try:
             REGISTRY[tname](sf)
         except Exception as e:
@@ -416,7 +443,7 @@ class C41(Prop):
         if not probs:
             return []
         # the input itself must be well formed (shrinking may produce inputs that are not): same checks on the untouched IR
-        base = wf_problems(c40.parse_enriched(src), probs[0][0] == 'gfortran')
+        base = wf_problems(c40.parse_enriched(src), probs[0][0] in ('gfortran', 'undeclared'))
         if base:
             stats['input-not-wf'] += 1
             return []
